@@ -162,6 +162,7 @@ Section RT5.
             -- apply index_of_in. eapply assoc_in_keys. exact Has.
             -- cbn. destruct s; [contradiction|reflexivity].
             -- cbn. intros _ Hf _. destruct s; [contradiction|discriminate].
+            -- cbn. destruct s; [contradiction|reflexivity].
           * apply sl_cons. exact Hs.
           * intros k0 v0 [E|Hin]; [injection E as <- <-; exists (AElem t req); split; [exact Has|reflexivity]|apply (Hu k0 v0 Hin)].
         + destruct Hok as [_ Hsub]. destruct (Hsub k j (or_introl eq_refl)) as ((t & req & Has & Hlo & Hd) & Hj).
@@ -227,6 +228,7 @@ Section RT5.
             -- apply (in_nodup_assoc _ _ _ (rc_nodup _ _ _ Hc) Hin).
             -- cbn. replace (is_unsup a) with false by (destruct a; try discriminate; reflexivity). rewrite Hx. cbn. rewrite (IH j ej Hj Ej). reflexivity.
             -- cbn. intros _ _ _. exists j. apply (IH j ej Hj Ej).
+            -- destruct a; try discriminate; exact I.
           * intros k0 a0 v0 [E|Hin']; [injection E as <- <- <-; split; [exact Hla|exact Hin]|apply (Hl _ _ _ Hin')].
         + destruct (Hval (Some xv) (or_introl eq_refl)) as (Hel & x1 & k & t & s & E & Hle & Hun & Hne & Hcv). injection E as <-.
           rewrite Hel, Hle in *. unfold leaf in Ex. rewrite Hun in *. cbn in Ex. injection Ex as <-.
@@ -238,6 +240,7 @@ Section RT5.
             -- apply (in_nodup_assoc _ _ _ (rc_nodup _ _ _ Hc) Hin).
             -- cbn. destruct s; [contradiction|reflexivity].
             -- cbn. intros _ Hf _. destruct s; [contradiction|discriminate].
+            -- cbn. destruct s; [contradiction|reflexivity].
           * intros k0 a0 v0 [E|Hin']; [injection E as <- <- <-; split; [reflexivity|exact Hin]|apply (Hl _ _ _ Hin')].
     Qed.
 
@@ -307,6 +310,33 @@ Section RT5.
   Lemma canon_kw_app c l1 l2 : canon_kw sval unconv c (l1 ++ l2) = (canon_kw sval unconv c l1 ++ canon_kw sval unconv c l2)%list.
   Proof. apply flat_map_app. Qed.
 
+
+  Lemma index_of_some_in k (l : list string) i : index_of k l = Some i -> In k l.
+  Proof.
+    revert i. induction l as [|x l IHl]; intros i H; cbn [index_of] in H; [discriminate|].
+    destruct (String.eqb_spec k x) as [->|_]; [left; reflexivity|]. destruct (index_of k l) as [j|]; [|discriminate]. right. apply (IHl j eq_refl).
+  Qed.
+  Lemma forall2_combine_in {A B} (R : A -> B -> Prop) l l' x y : Forall2 R l l' -> In (x, y) (combine l l') -> R x y.
+  Proof.
+    intro F. induction F as [|a b l l' Hab F IHF]; cbn [combine]; [intros []|]. intros [E|Hin]; [injection E as <- <-; exact Hab|apply IHF; exact Hin].
+  Qed.
+  Lemma forall2_in_l {A B} (R : A -> B -> Prop) l l' x : Forall2 R l l' -> In x l -> exists y, R x y.
+  Proof. intro F. induction F as [|a b l l' Hab F IHF]; [intros []|]. intros [<-|Hin]; [eauto|apply IHF; exact Hin]. Qed.
+
+  (** what ungroom writes is what groom reads back *)
+  Lemma ungroom_goods c lb ub ch specs :
+    rt_class_ok c lb ub -> Forall2 (good sval from_etree c) ch specs -> goods sval from_etree c false (ungroom c ch) specs.
+  Proof.
+    intros Hc F. pose proof (rc_rename _ _ _ Hc) as Hr. unfold ungroom. destruct (ci_rename c) as [[wire py]|] eqn:Er.
+    - destruct Hr as ((t & r & Hpy) & Hup & Hdw & Hne & Hnw).
+      apply (goods_renamed sval from_etree c wire py Er Hne ch specs F).
+      + intros e Hin He. destruct (forall2_in_l _ _ _ _ F Hin) as ([[k a] v] & Hg). destruct Hg as (_ & Hl & (idx & Hi) & _).
+        apply Hnw. rewrite <- He, Hl. eapply index_of_some_in. exact Hi.
+      + intros e [[k a] v] Hin He. pose proof (forall2_combine_in _ _ _ _ _ F Hin) as Hg. destruct Hg as (_ & Hl & _ & Ha & _).
+        rewrite He in Hl. rewrite <- Hl, Hpy in Ha. injection Ha as <-. exact I.
+    - apply goods_plain; [exact F|]. intros e _. unfold groomed_tag. rewrite Er. reflexivity.
+  Qed.
+
   (** C01 / C13, tree level: what to_etree writes for a valid instance, from_etree reads back as that very instance, silently *)
   Theorem roundtrip_tree_l : forall i, valid i -> forall e, to_etree i = OK e -> from_etree e = OK (i, []).
   Proof.
@@ -314,7 +344,6 @@ Section RT5.
     inversion Hv as [cn' c lb ub fs' ms' Hcls Hc Hnames Hfv Hfs Hfsv Hma Hmav Hmv Hstr Hnosplit Hcanon]; subst.
     rewrite to_etree_unfold, Hcls in He.
     destruct (emit_top sval unconv S c ms fs (split_at (ci_spec c))) as [ch|k] eqn:Eem; cbn in He; [|discriminate]. injection He as <-.
-    unfold ungroom. rewrite (rc_norename _ _ _ Hc).
     set (ok_sub := fun j : inst => valid j /\ (forall e, to_etree j = OK e -> from_etree e = OK (j, []))).
     assert (IH : forall j e, ok_sub j -> to_etree j = OK e -> from_etree e = OK (j, [])) by (intros j e [_ H] He; apply H; exact He).
     assert (Hfok : forall l, (forall p, In p l -> In p fs) -> fields_ok c ok_sub l).
@@ -333,7 +362,7 @@ Section RT5.
     set (keys := map fst (ci_spec c)) in *.
     (* the reader-side description of the children and the fold over them *)
     assert (Hfold : exists specs p pl rn,
-               fold_left (step sval from_etree c) ch (OK (acc0 sval)) = OK (rev (sargs sval specs), rev (skw sval specs), p, pl, [], rn)
+               fold_left (step sval from_etree c) (ungroom c ch) (OK (acc0 sval)) = OK (rev (sargs sval specs), rev (skw sval specs), p, pl, [], rn)
                /\ sargs sval specs = canon_args sval unconv c ms /\ skw sval specs = canon_kw sval unconv c fs).
     { pose proof (emit_top_split sval unconv S c ms fs _ ch Eem) as Hsplit.
       destruct (split_at (ci_spec c)) as [n|] eqn:En.
@@ -371,8 +400,8 @@ Section RT5.
             + intros; exact I.
             + exact Hp2.
           - lia. }
-        destruct (goods_fold sval from_etree c (a ++ m ++ b) (A ++ M ++ B) [] [] 0 false [] false (rc_norename _ _ _ Hc)) as (p & pl & rn & Hf).
-        + apply forall2_app; [exact FA|apply forall2_app; [exact FM|exact FB]].
+        destruct (goods_fold' sval from_etree c (ungroom c (a ++ m ++ b)) (A ++ M ++ B) [] [] 0 false [] false) as (p & pl & rn & Hf).
+        + apply (ungroom_goods c lb ub _ _ Hc). apply forall2_app; [exact FA|apply forall2_app; [exact FM|exact FB]].
         + exact Hchain.
         + rewrite Hskw. eapply nodup_sublist; [|exact Hndnl]. rewrite <- Hnames.
           rewrite <- (firstn_skipn n fs) at 2. rewrite <- (firstn_skipn n fs) at 1. rewrite canon_kw_app, !map_app.
@@ -384,7 +413,7 @@ Section RT5.
         set (A := flat_map (fspec_of c) fs) in *.
         pose proof (rc_pre _ _ _ Hc) as Hpre. rewrite En in Hpre.
         assert (HnA : names3 A = map fst (canon_kw sval unconv c fs)) by (rewrite <- KA; symmetry; apply skw_names; apply fspec_nonlist).
-        destruct (goods_fold sval from_etree c ch A [] [] 0 false [] false (rc_norename _ _ _ Hc) FA) as (p & pl & rn & Hf).
+        destruct (goods_fold' sval from_etree c (ungroom c ch) A [] [] 0 false [] false (ungroom_goods c lb ub _ _ Hc FA)) as (p & pl & rn & Hf).
         + rewrite <- (app_nil_r A). apply (schain_fields c [] (List.length keys) A 0).
           * apply fspec_nonlist.
           * eapply incr_sublist; [exact Hpre|]. rewrite HnA, <- Hnames, <- KA. exact SA.
